@@ -131,6 +131,8 @@ fn run(ctx: &Ctx) {
         .prop_map(|(input, mut feed, fail)| {
             if let (Some(f), Some((frac, kind))) = (feed.as_mut(), fail) {
                 f.sched.fail_at = Some(((frac as usize * (input.bytes.len() + 1)) >> 16, kind));
+                f.sched.sticky = frac & 1 == 1;
+                f.sched.wrapped = frac & 6 == 6;
             }
             Case { input, feed }
         });
